@@ -433,6 +433,12 @@ Section Main.
     - rewrite passthrough. eexists; split; [reflexivity | discriminate].
   Qed.
 
+  Theorem one_nonpanic_run a x r : one_nonpanic (run a x r) = true.
+  Proof.
+    destruct (one_outcome a x r) as [o [E N]]. rewrite E. unfold one_nonpanic. cbn [T1 t_panicked t_events negb andb].
+    destruct o; [reflexivity | reflexivity | congruence].
+  Qed.
+
   (* ---- classification *)
   Lemma headers_same_build hs : headers_same_b hs (build hs []) = true.
   Proof. apply Inv_headers_same. apply (Inv_build hs [] [] Inv_nil). Qed.
